@@ -26,7 +26,7 @@ type c02Rebuild struct {
 
 func init() {
 	register(&Prop{ID: "C02", Run: c02Run,
-		Rule: "documents over path-safe keys weighted towards nested lists (depth <= 4) and lists of containers; for every flattened (path, leaf): Lookup, Child chain, pointer evaluation, props.ParsePath; Search with equality and type predicates; rebuild from the flattened pairs under all permutations when <= 5 leaves (else 20 seeded shuffles) for documents whose list items all contain a scalar. Non-trivial: the document has a list or depth >= 2; distinct by case hash.",
+		Rule: "documents over path-safe keys (a second pool holds digit-only and '-'-prefixed keys: leading zeros, signs, next to their canonical spelling) weighted towards nested lists (depth <= 4) and lists of containers; for every flattened (path, leaf): Lookup, Child chain, pointer evaluation, props.ParsePath; Search with equality and type predicates; rebuild from the flattened pairs under all permutations when <= 5 leaves (else 20 seeded shuffles) for documents whose list items all contain a scalar. Non-trivial: the document has a list or depth >= 2; distinct by case hash.",
 		Assumptions: []string{"keys are non-empty over [A-Za-z0-9_-]",
 			"the rebuild clause ranges over documents in which every list item contains at least one scalar"}})
 	evals["C02"] = c02Eval
@@ -97,6 +97,19 @@ func itemsHaveScalars(r *rand.Rand, g *DocGen, w W, inList bool) W {
 	return w
 }
 
+// c02DigitKeys: keys made of digits and '-' only are inside the property's key domain ("letters, digits, '_'
+// and '-'").  They look like list indices or numbers to code that converts between the addressing schemes, so the
+// pool holds non-canonical spellings (leading zeros, a sign) next to the canonical key they would collapse to.
+var c02DigitKeys = []string{"0", "00", "007", "7", "01", "1", "-0", "-1", "10", "1e3", "0x1F", "-", "--", "_", "a", "k1"}
+
+func c02DigitGen() *DocGen {
+	g := c02Gen()
+	g.Keys = c02DigitKeys
+	g.MaxDepth = 4
+	g.MaxWidth = 4
+	return g
+}
+
 func c02Run(c *Ctx) {
 	r := c.Rng
 	g := c02Gen()
@@ -104,10 +117,21 @@ func c02Run(c *Ctx) {
 		c.Tick()
 		c.Do("addr", c02Addr{g.Doc(r), pick(r, []string{"build", "frommap"})})
 	}
+	gd := c02DigitGen()
+	for i := 0; i < c.N(500); i++ {
+		c.Tick()
+		c.Dist("addr:digit-and-sign-keys")
+		c.Do("addr", c02Addr{gd.Doc(r), pick(r, []string{"build", "frommap"})})
+	}
 	gr := c02Gen()
 	gr.MaxDepth = 4
 	for i := 0; i < c.N(300); i++ {
 		c.Tick()
+		if i%5 == 4 {
+			gr.Keys = c02DigitKeys
+		} else {
+			gr.Keys = g.Keys
+		}
 		d := itemsHaveScalars(r, gr, gr.Doc(r), false)
 		n := wireScalars(d)
 		if n == 0 {
